@@ -385,7 +385,7 @@ def hist(vals):
     return h
 
 
-def corpus_check(ctx, fam, build, K, extra_adv, level_extra, assumptions, floors, nlo=-1, nhi=3, stage1=False):
+def corpus_check(ctx, fam, build, K, extra_adv, level_extra, assumptions, floors, nlo=-1, nhi=3, stage1=False, second_pass=None):
     corp = corpus.Corpus(ctx, fam)
     corp.driver_bin = runner.build_driver(ctx)
     corp.stage1 = stage1
@@ -399,6 +399,24 @@ def corpus_check(ctx, fam, build, K, extra_adv, level_extra, assumptions, floors
     args = engine_common(ctx)
     res = runner.run_engine(ctx, pairs + args)
     new, known, replayed, mism, details = corpus.process_two_world(ctx, corp, res)
+    if second_pass:
+        # single-world harness drivers inside the generated packages (e.g. YieldFrom form == range form)
+        hargs = []
+        for i in range(0, len(pairs), 2):
+            hargs += ["-harness", pairs[i + 1].split("=")[1]]
+        res2 = runner.run_engine(ctx, hargs + ["-drivers", second_pass] + args, name="result2")
+        n2, k2, r2, m2, d2 = 0, [], 0, 0, []
+        for d in res2["drivers"]:
+            if d["status"] != "violated":
+                continue
+            pkg_rel = "out/" + d["name"].rsplit(".", 1)[0].split("/")[-1]
+            sub = {"drivers": [d]}
+            a, b, c, e, f = process_harness(ctx, sub, pkg_rel, max_replay_per_driver=1)
+            n2 += a; k2 += b; r2 += c; m2 += e; d2 += f
+        new += n2; known += k2; replayed += r2; mism += m2; details += d2
+        agg2 = runner.summarize_engine(res2)
+        level_extra = dict(level_extra)
+        level_extra["second_pass"] = {k: agg2[k] for k in ("drivers", "drivers_holds", "drivers_violated", "drivers_undecided", "paths", "queries", "solver_time_s", "undecided_by_reason")}
     decided_tags = {}
     for d in res["drivers"]:
         p = corp.programs.get(corp.pid_of_driver(d["name"]))
@@ -506,3 +524,65 @@ def plan_C18(ctx):
 
 
 CLAIMED["C18"] = plan_C18
+
+
+def directed_c05():
+    Y = lambda e: ("yield", e)
+    YF = lambda e: ("yieldfrom", e)
+    E = lambda n: ("eff", n)
+    D = []
+    D.append(("chain", [Y("a"), YF("H2(a)"), Y("b"), YF("H1(b)"), E(1)]))
+    D.append(("empty_delegate", [E(1), YF("H3(a)"), E(2), Y("a + 1")]))
+    D.append(("recursion", [YF("R1(n, a)"), Y("b")]))
+    D.append(("infinite_delegate", [Y("a"), YF("R2(b)"), Y("a + 1")]))
+    D.append(("partially_consumed", [("raw", "it := H1(a)\nit.MoveNext()\nrt.Emit(44, it.Current())"), YF("it"), Y("b")]))
+    D.append(("exhausted_before", [("raw", "it := H2(a)\nfor it.MoveNext() {\n}"), YF("it"), Y("b")]))
+    D.append(("in_loop", [("for", ("decl", "i", "0"), "i < n", ("inc", "i"), [YF("H2(i)"), ("if", "g1", [("continue",)], None), Y("i + 100")])]))
+    D.append(("in_switch", [("switch", None, "a%2", [("0", [YF("H2(a)")])], [YF("H1(a)")]), Y("b")]))
+    D.append(("for_post", [("decl", "i", "0"), ("for", None, "i < n", YF("H2(i)"), [("inc", "i"), Y("i + 100")])]))
+    D.append(("for_init", [("decl", "i", "0"), ("for", YF("H2(a)"), "i < n", ("inc", "i"), [Y("i + 100")])]))
+    D.append(("arg_once", [YF("rt.Eff(801, H2(rt.Eff(802, a)))"), E(1)]))
+    D.append(("nested_delegation", [YF("H4(a)"), YF("H4(b)")]))
+    D.append(("same_iter_twice", [("raw", "it := H1(a)"), YF("it"), YF("it"), Y("b")]))
+    return D
+
+
+def plan_C05(ctx):
+    K = ctx.q(8, 16)
+
+    def build(corp):
+        rng = random.Random(ctx.seed * 131 + 5)
+        smp = gen.YFSampler(rng)
+        bodies = [(name, body) for name, body in directed_c05()]
+        tries = 0
+        want = ctx.q(200, 1500)
+        while len(bodies) < want + len(directed_c05()) and tries < want * 30:
+            tries += 1
+            ctr = gen.Ctr()
+            budget = [rng.randint(3, 9)]
+            body = smp.body(budget, ctr, [], False, False, 0, [])
+            if "yieldfrom" not in repr(body):
+                continue
+            bodies.append((None, body))
+        n = 0
+        for name, body in bodies:
+            pid = ("d_%s" % name) if name else ("y%04d" % n)
+            n += 1
+            p = gen.Program(pid, body, helpers=gen.C05_HELPERS, named_result=(n % 2 == 0), family="yf", tags={"directed:" + name} if name else None)
+            # range-form twin + equality driver (observational identity with 'for v := range it { Yield(v) }')
+            twin = gen.to_range_form(body, gen.Ctr())
+            tl = ["func %sR%s (_ Iter[int]) {" % (p.name, gen.SIG)] + gen.p_stmts(twin, 1) + ["\treturn", "}", ""]
+            p.helpers = gen.C05_HELPERS + "\n" + "\n".join(tl) + "\n" + gen.eq_driver(p.name, p.name + "R", K)
+            corp.add(p)
+        return {"delegating_programs": n, "directed": len(directed_c05()), "delegates": gen.DELEGATES,
+                "forms": ["statement position", "inside loops / switch cases", "for-post and for-init", "delegate advanced by hand before delegation", "argument wrapped in Eff", "recursion R1(n, a) with symbolic depth n <= 3", "infinite delegate"]}
+
+    extra = {
+        "bounds": {"advances_K": K, "recursion_depth": "n in [-1,3]", "outside": "program shapes not generated; deeper recursion; more than K advances"},
+        "explanation": "(i) source-under-coroutine-semantics vs compiled code, flat log with advance markers and delegate-side effects (one delegate step per consumer step, argument evaluated once); (ii) second pass on the generated package: compiled YieldFrom form vs compiled range form of the same body must produce equal logs (AssertSameLogs)",
+    }
+    rc = corpus_check(ctx, "c05", build, K, 1, extra, [REF_ASSUMPTION, PROGRAM_DIM], floors={"drivers_holds": ctx.q(100, 800)}, second_pass=r"^DriveEq_")
+    return rc
+
+
+CLAIMED["C05"] = plan_C05
